@@ -105,6 +105,8 @@ def run_batch(d, bi, cases, mode, extra_cfg=None, keep=False, extra_src=""):
     else:
         res = runner.generate(root, mode=mode)
     texts = runner.read_outputs(os.path.join(root, "out"))
+    if "Failed to parse" in res.err:
+        raise C.ToolError("type case project b%d contains a file syn cannot parse (concretiser defect):\n%s" % (bi, res.err[-800:]))
     b = observe.Bindings(texts=texts) if res.rc == 0 and texts else None
     if not keep:
         shutil.rmtree(root, ignore_errors=True)
